@@ -382,13 +382,16 @@ def child_sync(which, form: int, cfail: bool, slow: bool, par: bool, c0: int, c1
                            canonical=True)
 
 
-def _cb_scenario(which, stream: int, c0: int, c1: int, c2: int, c3: int):
+TOKEN_PATHS = ["$$.Task.Token", "$$.Task['Token']", "$$['Task']['Token']", "$$.Task", "$$['Task'].Token"]
+
+
+def _cb_scenario(which, stream: int, c0: int, c1: int, c2: int, c3: int, tokform: int = 0):
     """A .waitForTaskToken task: the worker receives the token and (per `stream`) the harness presents
     0: the valid token once, 1: twice, 2: a forged token then the valid one, 3: ordinary reply first then the valid
     token, 4: the valid token as SendTaskFailure, 5: only a forged token (task must stay pending until it times out),
     6: two callback Tasks in sequence, each answered with the token it received, 7: a retried callback Task."""
     t = {"Type": "Task", "Resource": "arn:aws:states:local::rpcmessage:invoke.waitForTaskToken", "TimeoutSeconds": 20,
-         "Parameters": {"FunctionName": "arn:aws:rpcmessage:local::function:fw", "Payload": {"token.$": "$$.Task.Token"}},
+         "Parameters": {"FunctionName": "arn:aws:rpcmessage:local::function:fw", "Payload": {"token.$": TOKEN_PATHS[tokform]}},
          "ResultPath": "$.cb", "End": True}
     asl = {"StartAt": "T", "States": {"T": t}}
     if stream == 6:
@@ -405,8 +408,11 @@ def _cb_scenario(which, stream: int, c0: int, c1: int, c2: int, c3: int):
     fe = api.FE[0]
 
     def w(req):
-        state["tok"] = req["token"]
-        state["toks"].append(req["token"])
+        tk = req["token"]
+        if isinstance(tk, dict):      # the whole $$.Task object was selected
+            tk = tk.get("Token")
+        state["tok"] = tk
+        state["toks"].append(tk)
         return {"received": True} if stream == 3 else None
 
     def pre(run, inst):
@@ -486,6 +492,17 @@ def callback_runs(stream: int, c0: int, c1: int, c2: int, c3: int) -> str:
     ensures: _ == ""
     """
     return _cb_scenario({"C15", "C02", "C03"}, stream, c0, c1, c2, c3)
+
+
+@condition(timeout={"quick": 300, "thorough": 900}, functions=scn.ENGINE_FUNCS + ["apply_path ($$ selections of the Task token)", "aws_api_SendTaskSuccess"])
+def callback_token_forms(tokform: int, c0: int, c1: int, c2: int, c3: int) -> str:
+    """
+    The token a Task receives completes it, however the definition spells the path that selects it from the Context
+    Object: dot form, bracket forms, or the whole $$.Task object (the worker then takes its Token member).
+    requires: 0 <= tokform < 5
+    ensures: _ == ""
+    """
+    return _cb_scenario({"C15", "C02", "C03"}, 0, c0, c1, c2, c3, stubs.cint(tokform, 0, 4))
 
 
 def grandchild_sync(which, leaf: int, c0: int, c1: int, c2: int, c3: int, c4: int, c5: int):
